@@ -82,6 +82,25 @@ func buildIntrinsics() map[string]intrinsic {
 			}
 			return &TupleV{E: []Value{nativeTime(t), &IfaceV{}}}
 		}
+		if sv := args[1].(*StrV); ok1 && len(sv.Alts) > 0 {
+			// lifted over the finitely many concrete values of the argument
+			e.stub("lifted:time.Parse(finite choice)")
+			fails := altsBool(sv, func(s string) bool { _, err := time.Parse(layout, s); return err != nil })
+			if e.branch(fails) {
+				return &TupleV{E: []Value{e.zero(fn.Signature.Results().At(0).Type()), e.mkError("parsing time: cannot parse")}}
+			}
+			part := func(i int) func(string) uint64 {
+				return func(s string) uint64 {
+					t, err := time.Parse(layout, s)
+					if err != nil {
+						return 0
+					}
+					return *nativeTime(t).(*StructV).F[i].(*BV).C
+				}
+			}
+			tv := &StructV{F: []Value{e.nameValue(altsBV(sv, part(0)), "tp"), e.nameValue(altsBV(sv, part(1)), "tp"), &PtrV{}}}
+			return &TupleV{E: []Value{tv, &IfaceV{}}}
+		}
 		e.stub("uf:time.Parse")
 		res := e.ufCall("time.Parse", args, fn.Signature.Results())
 		return res
@@ -182,6 +201,22 @@ func buildIntrinsics() map[string]intrinsic {
 			return cstr(strings.ToLower(*a.C))
 		}
 		e.stub("uf:strings.ToLower")
+		if len(a.Parts) > 1 {
+			// ASCII lower-casing acts character by character, so it distributes over concatenation
+			var acc *StrV
+			for _, p := range a.Parts {
+				lp := &StrV{T: e.lowerTerm(p)}
+				if p.C != nil {
+					lp = cstr(strings.ToLower(*p.C))
+				}
+				if acc == nil {
+					acc = lp
+				} else {
+					acc = e.strBinop(token.ADD, acc, lp).(*StrV)
+				}
+			}
+			return acc
+		}
 		return &StrV{T: e.lowerTerm(a)}
 	}
 	m["strings.ToUpper"] = func(e *Exec, fn *ssa.Function, args []Value) Value {
@@ -590,7 +625,26 @@ func (e *Exec) regexpKey(v Value) Value {
 	return nil
 }
 
+// symRegexp is an arbitrary regular expression: MatchString is an arbitrary
+// predicate, one input Bool per candidate string it may be asked about.
+type symRegexp struct {
+	id    string
+	cands []string
+}
+
 func (e *Exec) regexpMatch(rev Value, s *StrV) Value {
+	if sr, isSym := e.opaqueOf(rev).(*symRegexp); isSym {
+		if s.C != nil {
+			for i, c := range sr.cands {
+				if c == *s.C {
+					n := fmt.Sprintf("%s_m%d", sr.id, i)
+					e.declareInput(n, "Bool")
+					return &BoolV{T: n}
+				}
+			}
+		}
+		e.unsupported("arbitrary regexp asked about a string outside its candidate list")
+	}
 	re, ok := e.opaqueOf(rev).(*regexp.Regexp)
 	if !ok {
 		e.unsupported("match on unknown regexp")
@@ -682,6 +736,8 @@ func (e *Exec) lowerTerm(a *StrV) string {
 		// idempotence and ASCII facts that lints rely on
 		e.assume("(= (uf_lower " + t + ") " + t + ")")
 		e.assume("(str.in_re " + t + " " + byteRangeRe + ")")
+		// characters that are not letters keep their positions (stated for the label separator)
+		e.assume("(= (str.contains " + t + " \".\") (str.contains " + a.T + " \".\"))")
 		e.assume("(=> (str.in_re " + a.T + " (re.* (re.union (re.range \"\\u{0}\" \"@\") (re.range \"[\" \"\\u{7f}\")))) (= " + t + " " + a.T + "))")
 	}
 	return t
